@@ -12,9 +12,9 @@ import (
 // reg1.example:5000 and reg1.example:5001 are different registries on one host name
 var authHosts = []string{"reg0.example", "reg1.example:5000", "reg2.example", "reg1.example:5001"}
 
-// authRealmTable: every realm a generated challenge may name. All but the last
-// two are URLs that print back unchanged; "" is a missing realm, "://bad" is
-// refused by url.Parse.
+// authRealmTable: every realm a generated challenge may name. The first four
+// are URLs that print back unchanged; "" is a missing realm, "://bad" is
+// refused by url.Parse; the last one prints back with its backslash escaped.
 var authRealmTable = []string{
 	"https://auth0.example/token",
 	"https://auth1.example/token",
@@ -22,7 +22,13 @@ var authRealmTable = []string{
 	"https://reg0.example/token", // a realm on a registry host
 	"",
 	"://bad",
+	// a path with a backslash: in a challenge it travels as \\ inside the quoted string, and net/url
+	// prints it as %5C (authRealmText)
+	`https://auth0.example/ten\ant/token`,
 }
+
+// authRealmText is the text net/url prints for a realm of the table.
+func authRealmText(realm string) string { return strings.ReplaceAll(realm, `\`, "%5C") }
 
 var authServices = []string{"svc0", "registry.example", "", `a"b\c d`, "svc,1", "\xc3\xa9\xff"}
 
